@@ -8,6 +8,10 @@
                                        _other_new_param,_a,_c,_terms_to_poly,_poly_to_terms,_b,get_terms}
    strategies/rule.py                  Rule._ensure_level, EquivalenceRule.{__init__,constructor},
                                        EquivalencePathRule.constructor, ReverseRule.constructor
+   including fix 25e10f1 (a product rule with a SINGLE factor as an equivalence step and in
+   reverse): Quotient._c without sibling (quotient_get_terms), the CartesianProduct branch of
+   EquivalenceRule.constructor (equiv_product_step, equiv_quotient_step) and the raw one-child
+   product rules / ReverseRules EquivalencePathRule.constructor accepts (kstep, path_step_k)
    over the GENERATED utils.compositions (Gen/Compositions.v) and Quotient.__init__
    arithmetic (Gen/QuotientParentShift.v).
 
@@ -342,7 +346,9 @@ Definition quotient_get_terms (fs : list (params -> params)) (ppm : params -> re
     bind (acc_entries (-1) (sub0 (n + psh))
             (product_table fs mins (replace_at idx (Some (n - 1)) maxs) tabs (n + psh)))
       (fun a =>
-    bind (acc_entries 1 []
+    bind (if (length cs =? 1)%nat
+          then Ok [(repeat 0 num, 1)]   (* _c, fix 25e10f1: no sibling = the constant polynomial 1 *)
+          else acc_entries 1 []
             (product_table (remove_at idx fs) (remove_at idx mins) (remove_at idx maxs)
                (remove_at idx tabs) psh))
       (fun c =>
@@ -528,3 +534,50 @@ Definition path_step (steps : list step_desc) (tabs : list terms) : (Z -> terms)
         bind (du_map_of (child_pos_map first lastn d) (length first))
           (fun pm => union_get_terms [pm] [tab_at tabs n]))
     end.
+
+(* ---------------------------------------------------------------- fix 25e10f1: one-factor products *)
+(* form 7: EquivalenceRule of a PRODUCT rule.  EquivalenceRule.constructor:
+     isinstance(original_constructor, CartesianProduct) and len(self.actual_children) == 1
+       -> DisjointUnion(parent, (child,), (extra_parameters[0],))
+     else raise NotImplementedError                                                       *)
+Definition equiv_product_step (pnames : list Z) (kids : list kid) (ktabs : list (list terms))
+  : (Z -> terms) -> Z -> res terms :=
+  fun _ n =>
+    match first_nonempty kids with
+    | None => Err E_ASSERT
+    | Some _ =>
+        match kids with
+        | [k] =>
+            bind (du_map_of (child_pos_map pnames (k_names k) (k_dict k)) (length pnames))
+                 (fun pm => union_get_terms [pm] [tab_at (nth 0 ktabs []) n])
+        | _ => Err E_NOTIMPL
+        end
+    end.
+
+(* form 8: EquivalenceRule of the ReverseRule of a product rule: the original constructor is a
+   Quotient, for which EquivalenceRule.constructor has no branch (also after 25e10f1) *)
+Definition equiv_quotient_step : (Z -> terms) -> Z -> res terms := fun _ _ => Err E_NOTIMPL.
+
+(* The rules of an EquivalencePathRule, by kind:
+     0  EquivalenceRule of a union rule            (constructor DisjointUnion, one child)
+     1  EquivalenceRule of the reverse of a union  (constructor Complement, no sibling)
+     2  a RAW product rule with one factor         (constructor CartesianProduct; what
+        SpecificationRuleExtractor._find_rule hands out: `rule if len(rule.children) == 1`)
+     3  its RAW ReverseRule                        (constructor Quotient, no sibling)
+   EquivalencePathRule.__init__ asserts len(rule.children) == 1; the constructor takes
+   extra_parameters[0] of every rule and inverts it for kinds 1 and 3 (injective or
+   NotImplementedError): a product step contributes the dictionary of its only factor, exactly
+   what the union form of the same description contributes.                              *)
+Definition kstep := (Z * list Z * list kid * nat)%type.
+
+Definition kstep_lower (s : kstep) : res step_desc :=
+  let '(kind, pn, kids, idx) := s in
+  if kind <? 2 then Ok (negb (kind =? 0), pn, kids, idx)
+  else match kids with
+       | [_] => Ok (negb (kind =? 2), pn, kids, 0%nat)
+       | _ => Err E_ASSERT
+       end.
+
+(* form 6 with typed steps *)
+Definition path_step_k (steps : list kstep) (tabs : list terms) : (Z -> terms) -> Z -> res terms :=
+  fun own n => bind (mapM kstep_lower steps) (fun ss => path_step ss tabs own n).
